@@ -195,6 +195,71 @@ func genLogScript(rng *Rng, nops int) []string {
 	return script
 }
 
+
+// directedLogScripts enumerates every sequence of `depth` operations drawn from
+// {append, truncate first/last, compact first/second/last-but-one, discard, close+open} after a
+// five-entry prelude, each followed by an append and a reopen: the operation *pairs* (compact then
+// truncate, truncate then compact, ...) that random scripts only hit occasionally.
+func directedLogScripts(depth int) [][]string {
+	prelude := []string{"log.open", "log.append 1.1.1.07;2.1.1.68656c6c6f;3.2.1.;4.2.0.;5.3.1.abab"}
+	kinds := []string{"A", "T1", "Tl", "C1", "C2", "Cl", "D", "R"}
+	var out [][]string
+	var rec func(script []string, s specLog, term uint64, d int)
+	rec = func(script []string, s specLog, term uint64, d int) {
+		if d == 0 {
+			fin := append(append([]string{}, script...), fmt.Sprintf("log.append %d.%d.1.6f6b", s.last()+1, term+1), "log.close", "log.open")
+			out = append(out, fin)
+			return
+		}
+		for _, k := range kinds {
+			var lines []string
+			n := uint64(len(s.ents))
+			switch k {
+			case "A":
+				lines = []string{fmt.Sprintf("log.append %d.%d.1.6161", s.last()+1, term)}
+			case "T1":
+				if n >= 2 {
+					lines = []string{fmt.Sprintf("log.truncate %d", s.base+2)}
+				}
+			case "Tl":
+				if n >= 1 {
+					lines = []string{fmt.Sprintf("log.truncate %d", s.last())}
+				}
+			case "C1":
+				if n >= 2 {
+					lines = []string{fmt.Sprintf("log.compact %d", s.base+1)}
+				}
+			case "C2":
+				if n >= 3 {
+					lines = []string{fmt.Sprintf("log.compact %d", s.base+2)}
+				}
+			case "Cl":
+				if n >= 4 {
+					lines = []string{fmt.Sprintf("log.compact %d", s.last()-1)}
+				}
+			case "D":
+				lines = []string{fmt.Sprintf("log.discard %d %d", s.last()+1, term)}
+			case "R":
+				lines = []string{"log.close", "log.open"}
+			}
+			if lines == nil {
+				continue
+			}
+			ns := s
+			for _, l := range lines {
+				ns = ns.apply(l)
+			}
+			rec(append(append([]string{}, script...), lines...), ns, term, d-1)
+		}
+	}
+	s := specLog{}
+	for _, l := range prelude {
+		s = s.apply(l)
+	}
+	rec(prelude, s, 3, depth)
+	return out
+}
+
 // readLog recovers a log from dir exactly as a restarting node does.
 func readLog(dir string) (lg raft.Log, got specLog, err error) {
 	defer func() {
@@ -277,7 +342,7 @@ func marksBefore(muts []Mut, upto int) (done int, inflight int) {
 
 func TestE2LogCrash(t *testing.T) {
 	rep := NewReport("E2-log-crash")
-	rep.Rule = "seeded operation scripts (append 1-3 entries with payloads 0/1/5/200 B and all entry types, truncate, compact, discard, close, reopen) run against the real file-backed log under strace; a crash image is synthesised from the observed syscalls after every mutating syscall and at every byte inside every write; each image is recovered with the real NewLog+Open+Replay, checked against the sequential specification, against the Lean replay of its log.bin, and then appended to and recovered again; non-trivial = image cut inside an operation; distinct by script+cut"
+	rep.Rule = "every sequence of 2 (thorough: 3) operations from {append, truncate first/last, compact first/second/last-but-one, discard, close+open} after a five-entry prelude, then an append and a reopen, plus seeded operation scripts (append 1-3 entries with payloads 0/1/5/200 B and all entry types, truncate, compact, discard, close, reopen) run against the real file-backed log under strace; a crash image is synthesised from the observed syscalls after every mutating syscall and at every byte inside every write; each image is recovered with the real NewLog+Open+Replay, checked against the sequential specification, against the Lean replay of its log.bin, and then appended to and recovered again; non-trivial = image cut inside an operation; distinct by script+cut"
 	defer rep.Write()
 	if !StraceAvailable() {
 		rep.Notes = append(rep.Notes, "strace/ptrace unavailable: engine could not run")
@@ -294,8 +359,23 @@ func TestE2LogCrash(t *testing.T) {
 	nops := EnvInt("VERIF_OPS", 7)
 	root, _ := os.MkdirTemp(ScratchRoot(), "verif-e2log-")
 	defer os.RemoveAll(root)
+	var scripts [][]string
+	shard, shards := EnvInt("VERIF_SHARD", 0), EnvInt("VERIF_SHARDS", 1)
+	for i, sc := range directedLogScripts(EnvInt("VERIF_DIRECTED", 2)) {
+		if i%shards == shard {
+			scripts = append(scripts, sc)
+		}
+	}
+	ndirected := len(scripts)
 	for sidx := 0; sidx < nscripts; sidx++ {
-		script := genLogScript(rng, nops)
+		scripts = append(scripts, genLogScript(rng, nops))
+	}
+	for sidx, script := range scripts {
+		maxcut := EnvInt("VERIF_MAXCUT", 0)
+		if sidx < ndirected {
+			maxcut = 3 // directed scripts: every syscall boundary, a few bytes inside each write
+			rep.Hit("directed-script")
+		}
 		scriptPath := filepath.Join(root, fmt.Sprintf("script%d.txt", sidx))
 		os.WriteFile(scriptPath, []byte(strings.Join(script, "\n")+"\n"), 0o644)
 		live := filepath.Join(root, fmt.Sprintf("live%d", sidx))
@@ -323,7 +403,7 @@ func TestE2LogCrash(t *testing.T) {
 		for k, line := range script {
 			states[k+1] = states[k].apply(line)
 		}
-		cuts := enumerateCuts(muts, EnvInt("VERIF_MAXCUT", 0))
+		cuts := enumerateCuts(muts, maxcut)
 		for ci, cp := range cuts {
 			im := NewImage()
 			for i := 0; i < cp.mut; i++ {
@@ -377,6 +457,10 @@ func TestE2LogCrash(t *testing.T) {
 				sig := map[string]string{"oracle": "recover-log", "where": "cut-" + map[bool]string{true: "inside-op", false: "between-ops"}[inflight >= 0]}
 				rep.Add(Finding{Kind: "oracle", Property: "C12", Oracle: "reopening the log after this crash does not yield the completed operations (optionally plus a prefix of the in-flight append)",
 					Case: caseLine, Impl: observed, Detail: "expected one of: " + fmt.Sprint(allowed) + " | image: " + im.Describe(), Signature: sig})
+				if inflight < 0 {
+					rep.Add(Finding{Kind: "oracle", Property: "C19", Oracle: "log entries read back from storage (no operation in flight) are not the entries written",
+						Case: caseLine, Impl: observed, Detail: "written: " + before.String(), Signature: map[string]string{"oracle": "readback-log"}})
+				}
 			}
 			// model: Lean replay of the image's log.bin must read what the real code read
 			if fileBytes, ok := im.Files["log/log.bin"]; ok && rerr == nil {
